@@ -42,6 +42,9 @@ pub enum Family {
     Cache,
     /// WalManager: log ∥ log ∥ rotate ∥ sync on one directory, rotation every few records
     Wal,
+    /// one `GrafeoDB`, one `Session` per simulated thread: direct API calls, auto-commit
+    /// statements and whole transactions (begin, INSERT, commit) at the same time
+    Db,
 }
 
 #[derive(Clone, Debug, PartialEq, Eq, Serialize, Deserialize)]
@@ -89,6 +92,17 @@ pub enum SOp {
     WalLog,
     WalSync,
     WalRotate,
+    // --- GrafeoDB / Session --- (label, value)
+    DbCreateNode(u8),
+    SessCreateNode(u8),
+    SessInsertQ(u8, i64),
+    /// begin; INSERT; [INSERT]; commit  (one operation of the thread)
+    SessTxInsertCommit(u8, i64, bool),
+    /// begin; INSERT; rollback
+    SessTxInsertRollback(u8, i64),
+    SessSetPropQ(usize, i64),
+    SessCreateEdge(usize, usize),
+    SessCountQ,
 }
 
 impl SOp {
@@ -126,10 +140,18 @@ impl SOp {
             SOp::WalLog => "wal_log",
             SOp::WalSync => "wal_sync",
             SOp::WalRotate => "wal_rotate",
+            SOp::DbCreateNode(_) => "db.create_node",
+            SOp::SessCreateNode(_) => "session.create_node",
+            SOp::SessInsertQ(..) => "INSERT",
+            SOp::SessTxInsertCommit(..) => "begin+INSERT+commit",
+            SOp::SessTxInsertRollback(..) => "begin+INSERT+rollback",
+            SOp::SessSetPropQ(..) => "SET-property",
+            SOp::SessCreateEdge(..) => "session.create_edge",
+            SOp::SessCountQ => "count-query",
         }
     }
     fn is_read(&self) -> bool {
-        matches!(self, SOp::ScanLabel(_) | SOp::FindProp(..) | SOp::RdfFind(_) | SOp::ComputeStats | SOp::TxGc | SOp::CatRead(_) | SOp::CacheStats)
+        matches!(self, SOp::ScanLabel(_) | SOp::FindProp(..) | SOp::RdfFind(_) | SOp::ComputeStats | SOp::TxGc | SOp::CatRead(_) | SOp::CacheStats | SOp::SessCountQ)
     }
 }
 
@@ -177,6 +199,7 @@ enum World {
     Cat { cat: grafeo_engine::Catalog },
     Cache { cache: grafeo_engine::query::QueryCache, plans: Vec<grafeo_engine::query::LogicalPlan>, over: AtomicU64 },
     Wal { wal: grafeo_adapters::storage::wal::WalManager, dir: std::path::PathBuf },
+    Db { db: grafeo_engine::GrafeoDB, sessions: Vec<std::sync::Mutex<grafeo_engine::Session>>, nodes: Vec<NodeId> },
 }
 
 const CAT_NAMES: [&str; 3] = ["X", "Y", "Z"];
@@ -264,6 +287,16 @@ fn setup(sc: &Scenario) -> World {
                 wal.log(&wal_record(15, i)).expect("pre log");
             }
             World::Wal { wal, dir }
+        }
+        Family::Db => {
+            let db = grafeo_engine::GrafeoDB::new_in_memory();
+            let mut nodes = Vec::new();
+            for i in 0..sc.pre_nodes {
+                nodes.push(db.create_node(&[LABELS[i % 3]]));
+            }
+            // one session per thread; a thread only ever locks its own
+            let sessions = (0..sc.threads.len()).map(|_| std::sync::Mutex::new(db.session())).collect();
+            World::Db { db, sessions, nodes }
         }
     }
 }
@@ -437,6 +470,102 @@ fn apply(w: &World, t: usize, j: usize, op: &SOp, created: &std::sync::Mutex<BTr
                 over.fetch_add(1, Ordering::SeqCst);
             }
             r
+        }
+        (World::Db { db, sessions, nodes }, op) => {
+            let mut sess = sessions[t].lock().unwrap();
+            let first_id = |r: Result<grafeo_engine::database::QueryResult, Error>| -> Result<u64, String> {
+                match r {
+                    Ok(res) => match res.rows.first().and_then(|row| row.first()) {
+                        Some(Value::Int64(i)) => Ok(*i as u64),
+                        other => Err(format!("no-id({other:?})")),
+                    },
+                    Err(e) => Err(format!("err({})", e.to_string().replace(':', ";"))),
+                }
+            };
+            match op {
+                SOp::DbCreateNode(l) => {
+                    let id = db.create_node(&[LABELS[*l as usize % 3]]);
+                    if let Some(old) = created.lock().unwrap().insert(id.as_u64(), format!("N{t}.{j}")) {
+                        return format!("id:{} (already handed out to {old})", id.as_u64());
+                    }
+                    format!("id:{}", id.as_u64())
+                }
+                SOp::SessCreateNode(l) => {
+                    let id = sess.create_node(&[LABELS[*l as usize % 3]]);
+                    if let Some(old) = created.lock().unwrap().insert(id.as_u64(), format!("N{t}.{j}")) {
+                        return format!("id:{} (already handed out to {old})", id.as_u64());
+                    }
+                    format!("id:{}", id.as_u64())
+                }
+                SOp::SessInsertQ(l, v) => match first_id(sess.execute(&format!("INSERT (:{} {{k: {v}}})", LABELS[*l as usize % 3]))) {
+                    Ok(id) => {
+                        if let Some(old) = created.lock().unwrap().insert(id, format!("N{t}.{j}")) {
+                            return format!("id:{id} (already handed out to {old})");
+                        }
+                        format!("id:{id}")
+                    }
+                    Err(e) => e,
+                },
+                SOp::SessTxInsertCommit(l, v, two) => {
+                    if let Err(e) = sess.begin_tx() {
+                        return format!("begin-err({})", e.to_string().replace(':', ";"));
+                    }
+                    let mut out = Vec::new();
+                    for x in 0..(if *two { 2 } else { 1 }) {
+                        match first_id(sess.execute(&format!("INSERT (:{} {{k: {}}})", LABELS[*l as usize % 3], v + x))) {
+                            Ok(id) => {
+                                if let Some(old) = created.lock().unwrap().insert(id, format!("N{t}.{j}.{x}")) {
+                                    out.push(format!("id:{id} (already handed out to {old})"));
+                                } else {
+                                    out.push("created".to_string());
+                                }
+                            }
+                            Err(e) => out.push(e),
+                        }
+                    }
+                    out.push(match sess.commit() {
+                        Ok(()) => "committed".to_string(),
+                        Err(e) => format!("commit-err({})", e.to_string().replace(':', ";")),
+                    });
+                    out.join(",")
+                }
+                SOp::SessTxInsertRollback(l, v) => {
+                    if let Err(e) = sess.begin_tx() {
+                        return format!("begin-err({})", e.to_string().replace(':', ";"));
+                    }
+                    let r = first_id(sess.execute(&format!("INSERT (:{} {{k: {v}}})", LABELS[*l as usize % 3]))).map(|_| "created".to_string()).unwrap_or_else(|e| e);
+                    let rb = match sess.rollback() {
+                        Ok(()) => "rolled-back".to_string(),
+                        Err(e) => format!("rollback-err({})", e.to_string().replace(':', ";")),
+                    };
+                    format!("{r},{rb}")
+                }
+                SOp::SessSetPropQ(s, v) => {
+                    if nodes.is_empty() {
+                        return "n/a".into();
+                    }
+                    let id = nodes[*s % nodes.len()].as_u64();
+                    match sess.execute(&format!("MATCH (n) WHERE id(n) = {id} SET n.m = {v}")) {
+                        Ok(_) => "()".into(),
+                        Err(e) => format!("err({})", e.to_string().replace(':', ";")),
+                    }
+                }
+                SOp::SessCreateEdge(a, b) => {
+                    if nodes.is_empty() {
+                        return "n/a".into();
+                    }
+                    let id = sess.create_edge(nodes[*a % nodes.len()], nodes[*b % nodes.len()], "S");
+                    if let Some(old) = created.lock().unwrap().insert(id.as_u64() | (1 << 63), format!("E{t}.{j}")) {
+                        return format!("eid:{} (already handed out to {old})", id.as_u64());
+                    }
+                    format!("eid:{}", id.as_u64())
+                }
+                SOp::SessCountQ => {
+                    let _ = sess.execute("MATCH (n) RETURN count(n)");
+                    "read".into()
+                }
+                _ => "n/a".into(),
+            }
         }
         (World::Wal { wal, .. }, SOp::WalLog) => match wal.log(&wal_record(t, j)) {
             Ok(()) => "ok".into(),
@@ -734,6 +863,67 @@ fn final_dump(w: &World, created: &BTreeMap<u64, String>) -> (String, Vec<(Strin
             }
             (format!("{}\x1findex_definitions\x1e{}\x1findex_listings\x1e{}", dicts.join("\x1f"), defs.join(" "), listings.join(" ")), inv)
         }
+        World::Db { db, nodes, .. } => {
+            let name = |id: u64, edge: bool| -> String {
+                let key = if edge { id | (1 << 63) } else { id };
+                created.get(&key).cloned().unwrap_or_else(|| format!("{}{id}", if edge { "e" } else { "n" }))
+            };
+            let fresh = db.session();
+            // The unlabelled scan, untyped expand and GrafeoDB::node_count read at the store's own
+            // epoch, which nothing advances (listed C01 finding): what they return depends on the
+            // begin epochs of the writers, i.e. on the schedule, for that reason alone. The outcome
+            // is therefore taken through label scans (with properties), point lookups of every id
+            // handed out, and neighbour listings. (Property projections inside a scan go the same way:
+            // `MATCH (n:L) RETURN n.k` is NULL for a node created at a manager epoch > 0.)
+            let mut by_label = Vec::new();
+            for l in LABELS {
+                let mut v: Vec<String> = match fresh.execute(&format!("MATCH (n:{l}) RETURN id(n)")) {
+                    Ok(r) => r.rows.iter().map(|row| match row.first() { Some(Value::Int64(i)) => name(*i as u64, false), other => format!("{other:?}") }).collect(),
+                    Err(e) => vec![format!("err:{e}")],
+                };
+                v.sort();
+                by_label.push(format!("{l}={v:?}"));
+            }
+            // every acknowledged creation is there afterwards (point lookups by the ids handed out)
+            let mut point = Vec::new();
+            for (key, nm) in created {
+                if key >> 63 == 0 {
+                    point.push(format!(
+                        "{nm}={}",
+                        fresh.get_node(NodeId::new(*key)).map_or("none".to_string(), |n| {
+                            let mut ls: Vec<String> = n.labels.iter().map(|l| l.to_string()).collect();
+                            ls.sort();
+                            let mut ps: Vec<String> = n.properties.iter().map(|(k, v)| format!("{}={v:?}", k.as_str())).collect();
+                            ps.sort();
+                            format!("[{}]{{{}}}", ls.join(","), ps.join(","))
+                        })
+                    ));
+                } else {
+                    point.push(format!("{nm}={}", fresh.get_edge(EdgeId::new(*key & !(1 << 63))).is_some()));
+                }
+            }
+            point.sort();
+            let mut adj = Vec::new();
+            for n in nodes {
+                if let Some(x) = fresh.get_node(*n) {
+                    let mut ps: Vec<String> = x.properties.iter().map(|(k, v)| format!("{}={v:?}", k.as_str())).collect();
+                    ps.sort();
+                    point.push(format!("{}={{{}}}", name(n.as_u64(), false), ps.join(",")));
+                }
+                let mut v: Vec<String> = fresh.get_neighbors_outgoing(*n).iter().map(|(d, e)| format!("{}->{}", name(e.as_u64(), true), name(d.as_u64(), false))).collect();
+                v.sort();
+                adj.push(format!("{}={v:?}", name(n.as_u64(), false)));
+            }
+            (
+                format!(
+                    "label_scans\x1e{}\x1fpoint_lookups\x1e{}\x1fneighbours\x1e{}",
+                    by_label.join(" "),
+                    point.join(" "),
+                    adj.join(" ")
+                ),
+                inv,
+            )
+        }
         World::Cache { cache, plans, over } => {
             let st = cache.stats();
             if over.load(Ordering::SeqCst) > 0 || st.parsed_size > CACHE_CAP || st.optimized_size > CACHE_CAP {
@@ -1004,6 +1194,7 @@ fn judge(sc: &Scenario, refs: &BTreeSet<String>, ex: &ExecOutcome, prop: &str) -
         Family::Catalog => "catalog",
         Family::Cache => "cache",
         Family::Wal => "wal",
+        Family::Db => "db",
     };
     let mut out = Vec::new();
     if let Some(msg) = &ex.crashed {
@@ -1023,11 +1214,11 @@ fn judge(sc: &Scenario, refs: &BTreeSet<String>, ex: &ExecOutcome, prop: &str) -
         }
     }
     match sc.family {
-        Family::Lpg | Family::LpgCore | Family::Rdf | Family::Buffer | Family::Catalog | Family::Cache | Family::Wal => {
+        Family::Lpg | Family::LpgCore | Family::Rdf | Family::Buffer | Family::Catalog | Family::Cache | Family::Wal | Family::Db => {
             // ids unique
             let mut ids: BTreeSet<&String> = BTreeSet::new();
             for r in ex.results.values() {
-                if (r.starts_with("id:") || r.starts_with("eid:") || r.starts_with("iid:")) && !ids.insert(r) {
+                if r.contains("already handed out") || ((r.starts_with("id:") || r.starts_with("eid:") || r.starts_with("iid:")) && !ids.insert(r)) {
                     out.push((format!("{prop} | {fam} | duplicate-id"), r.clone()));
                 }
             }
@@ -1184,6 +1375,16 @@ pub fn generate(rng: &mut Prng, family: Family) -> Scenario {
                         _ => SOp::CacheStats,
                     }
                 }
+                Family::Db => match rng.below(12) {
+                    0 => SOp::DbCreateNode(rng.below(3) as u8),
+                    1 | 2 => SOp::SessCreateNode(rng.below(3) as u8),
+                    3 | 4 => SOp::SessInsertQ(rng.below(3) as u8, 10 + rng.below(80) as i64),
+                    5 | 6 => SOp::SessTxInsertCommit(rng.below(3) as u8, 100 + 2 * rng.below(40) as i64, rng.chance(1, 3)),
+                    7 => SOp::SessTxInsertRollback(rng.below(3) as u8, 300 + rng.below(80) as i64),
+                    8 => SOp::SessSetPropQ(slot, rng.below(90) as i64),
+                    9 | 10 => SOp::SessCreateEdge(slot, rng.usize(pre_nodes)),
+                    _ => SOp::SessCountQ,
+                },
                 Family::Wal => match rng.below(8) {
                     0..=4 => SOp::WalLog,
                     5 => SOp::WalSync,
